@@ -111,6 +111,13 @@ def judge(m, run, mode, label, col, row, grecs=None):
                         ('_scon[%d]' % (i + 1) if i < na else '_slogcon[%d]' % (i - na + 1)))
     for k in range(len(m.objs)):
         nl_names.append(row[nc + k] if (use_files and row is not None and nc + k < len(row)) else '_sobj[%d]' % (k + 1))
+    # SOS sets declared through suffixes are NL items identified by their set number: mp names them SOS1_<no>_ / SOS2_<no>_
+    # (.sosno/.ref) and SOS2_PL_<no>_ (.sos/.sosref)
+    for sf in m.suffixes:
+        if sf[2] == 'sosno':
+            for no in sorted(set(int(v) for v in sf[3].values() if v)): nl_names.append(('SOS1_%d_' if no > 0 else 'SOS2_%d_') % no)
+        if sf[2] == 'sos':
+            for no in sorted(set(int(v) for v in sf[3].values() if v)): nl_names.append('SOS2_PL_%d_' % no)
     for n in vnames[norig:] + cnames:
         if n and not any(n.startswith(b) for b in nl_names if b):
             out.append(('C19 derived name does not start with the name of an NL item (files %s)' % (label),
@@ -162,7 +169,6 @@ def main(tier, seed):
     shutil.rmtree(WORK, ignore_errors=True); os.makedirs(WORK, exist_ok=True)
     jobs = []
     for fam, name, m in models(tier):
-        if any(m.compl) or m.suffixes: continue
         for accname in ACC:
             for mode in (0, 1, 2, 3):
                 for (label, col, row, nlsep) in name_sets(m):
